@@ -52,7 +52,7 @@ Theorem reload_queue_retries : forall results s, i_pending s = true -> In true r
 Proof.
   unfold reload_attempts. induction results as [|ok l IH]; cbn; intros s P I; [contradiction|].
   destruct ok.
-  - assert (E : reload_once true s = {| i_cfg := i_cfg s; i_disk := i_disk s; i_failed := i_failed s;
+  - assert (E : reload_once true s = {| i_cfg := i_cfg s; i_disk := i_disk s; i_failed := i_failed s; i_clean := i_clean s;
                                          i_running := Some (i_disk s); i_pending := false |})
       by (unfold reload_once; rewrite P; reflexivity).
     rewrite E. fold (reload_attempts l). rewrite reload_done_stays by reflexivity. cbn. auto.
@@ -79,43 +79,39 @@ Qed.
 
 (* ================================================================ a restart of the controller *)
 
-(* restart over an empty configuration directory (a new container): nothing to converge from *)
-Definition no_shard_content (d : disk) : Prop :=
-  forall j x, (match d_shard d j with Some f => f x | None => None end) = None.
+(* Crash points.  A crash at any point of an update, or a plain restart, gives a new
+   instance (nothing committed, nothing remembered) over whatever the directory holds -
+   files of an interrupted update, shard files of backends that are gone meanwhile, files of
+   shards beyond a smaller --backend-shards.  Its first reconciliation is a full sync, and
+   the first configuration it writes removes the backend files it did not write: whatever
+   the directory held, the reconciliations that follow converge like any other. *)
+Lemma restart_reach : forall e dn s, reach e dn (restart s).
+Proof. intros e dn s. apply (reach_new e dn (i_disk s) (i_running s)). Qed.
 
-Lemma restart_reach : forall e dn s, no_high_shards e (i_disk s) -> no_shard_content (i_disk s) ->
-  reach e dn (restart s).
+Theorem restart_converges : forall e dn, shard_range e ->
+  forall s l fs s', wf_batch e dn (i_cfg (restart s)) l -> step_f e fs (restart s) l = (s', false) ->
+    disk_ok e (i_cfg s') (i_disk s') /\
+    (inline e = true -> exists r, i_running s' = Some r /\ disk_ok e (i_cfg s') r).
 Proof.
-  intros e dn s NH NC. destruct (reach_empty e dn) as [D [_ [C [Dp [G _]]]]].
-  unfold reach, restart. cbn [i_cfg i_disk i_failed] in *.
-  split; [exact D|]. split; [exact NH|]. split; [exact C|]. split; [exact Dp|]. split; [exact G|].
-  right. split; [reflexivity|]. split; [|split].
-  - constructor; cbn.
-    + intros H. congruence.
-    + intros j _ x. rewrite NC. destruct (sh e x =? j); reflexivity.
-    + intros H. congruence.
-    + intros f H. discriminate.
-    + intros x bc H. discriminate.
-    + intros p H. rewrite port_used_empty in H. discriminate.
-    + intros p H. rewrite port_tls_empty in H. discriminate.
-  - intros _ H. cbn in H. congruence.
-  - intros H. cbn in H. congruence.
+  intros e dn SR s l fs s' W U.
+  assert (G : good e dn s') by (apply (update_good e dn fs (restart s) l); auto; apply restart_reach).
+  split; [apply (good_disk_ok e dn); auto|apply (good_running_ok e dn); auto].
 Qed.
-
-(* A restarted controller converges when no shard file of the directory holds a backend (a
-   directory that does not outlive the controller, or --backend-shards=0) ... *)
-Theorem restart_converges_under_no_stale_shard : forall e dn, shard_range e ->
-  forall s, no_high_shards e (i_disk s) -> no_shard_content (i_disk s) ->
-  forall l fs s', wf_batch e dn (i_cfg (restart s)) l -> step_f e fs (restart s) l = (s', false) ->
+(* ... and so do the histories that follow a restart, faults included *)
+Theorem restart_then_history : forall e dn, shard_range e ->
+  forall s h, wf_hist e dn (restart s) h ->
+  forall l fs s', wf_batch e dn (i_cfg (run_f e (restart s) h)) l ->
+    step_f e fs (run_f e (restart s) h) l = (s', false) ->
     disk_ok e (i_cfg s') (i_disk s').
 Proof.
-  intros e dn SR s NH NC l fs s' W U.
-  apply (good_disk_ok e dn); auto. apply (update_good e dn fs (restart s) l); auto. apply restart_reach; auto.
+  intros e dn SR s h W l fs s' Wl U.
+  assert (R : reach e dn (run_f e (restart s) h)) by (apply reach_hist; auto using restart_reach).
+  apply (good_disk_ok e dn); auto. apply (update_good e dn fs (run_f e (restart s) h) l); auto.
 Qed.
 
-(* ... and does not otherwise: the new instance does not know which shard files exist.  Two
-   shards, backends 0 (shard 0) and 1 (shard 1); the controller restarts and the cluster now
-   only has backend 0: haproxy5-backend001.cfg still holds backend 1. *)
+(* A concrete world (used to show that the hypotheses are satisfiable, and as the witness of
+   what was wrong before fix 7d37a3e): two shards, backends 0 (shard 0) and 1 (shard 1); the
+   controller restarts and the cluster now only has backend 0. *)
 Definition w_env : env :=
   {| nsh := 2; sh := fun x => x mod 2; UB := [0; 1]; UH := [0; 1]; UT := []; inline := false |}.
 Definition w_b (x : N) : bcont := {| bver := x + 1; bacl := false; bpaths := [(x, 0)]; brssl := [] |}.
@@ -147,9 +143,6 @@ Proof.
   - intros h hc b Hh Hr. assert (Ih : In h (UH e)) by (apply Dh; left; congruence).
     rewrite forallb_forall in H2. specialize (H2 h Ih). rewrite Hh, Hr in H2. apply isSome_true. exact H2.
 Qed.
-Lemma dom_empty : forall e, dom e config_empty.
-Proof. intros e. destruct (reach_empty e 0) as [D _]. exact D. Qed.
-
 Ltac solve_in := repeat (apply Forall_cons; [cbn; auto 10|]); apply Forall_nil.
 Ltac solve_wf D :=
   split; [first [apply shape_full; reflexivity | apply shape_partial; reflexivity]|];
@@ -174,16 +167,16 @@ Proof. solve_wf w_dom_s1. Qed.
 Example wf_hist_example : wf_hist w_env 7 inst_empty [(w_full2, []); (w_part, [FShard 1])].
 Proof. cbn [wf_hist fst snd]. split; [apply w_wf1|]. split; [apply w_wf_part|exact I]. Qed.
 
-Theorem restart_converges_refuted :
-  exists e dn h l,
-    shard_range e /\ wf_hist e dn inst_empty h /\
-    wf_batch e dn (i_cfg (restart (run_f e inst_empty h))) l /\
-    snd (step e (restart (run_f e inst_empty h)) l) = false /\
-    ~ disk_ok e (i_cfg (fst (step e (restart (run_f e inst_empty h)) l)))
-                (i_disk (fst (step e (restart (run_f e inst_empty h)) l))).
+(* the stale shard file of the witness is removed by the restarted instance *)
+Example restart_witness_converges :
+  disk_ok w_env (i_cfg w_s2) (i_disk w_s2) /\ d_shard (i_disk w_s2) 1 = None /\ d_shard (i_disk w_s1) 1 <> None.
 Proof.
-  exists w_env, 7, [(w_full2, [])], w_full1.
-  split; [apply w_range|]. split; [cbn [wf_hist fst snd]; split; [apply w_wf1|exact I]|].
-  split; [apply w_wf2|]. split; [vm_compute; reflexivity|].
-  intros H. pose proof (ok_backends _ _ _ H 2 1) as B. vm_compute in B. discriminate.
+  split; [|split].
+  - assert (U : step_f w_env [] (restart w_s1) w_full1 = (w_s2, false)).
+    { unfold w_s2, step_f, step, update.
+      rewrite (surjective_pairing (update_f w_env [] (sync w_env (restart w_s1) w_full1))) at 1.
+      rewrite update_nofault_ok. reflexivity. }
+    apply (restart_converges w_env 7 w_range w_s1 w_full1 [] w_s2 w_wf2 U).
+  - vm_compute. reflexivity.
+  - vm_compute. discriminate.
 Qed.
